@@ -308,6 +308,15 @@ def eigh_failures(x, st=None, c12=False):
 
 
 def solve_failures(a, b, st=None, c12=False):
+    out = _solve_failures(a, b, st, c12)
+    sym = type(a.symmetry).__name__
+    if getattr(a, "fermionic", False) and G.parity(sym, a.charge) == 1:
+        # an odd-parity fermionic matrix is its own class of input (the solution would need a label of its own)
+        out = [(kd.replace("solve/", "solve[fermionic,odd-a]/", 1), det) for kd, det in out]
+    return out
+
+
+def _solve_failures(a, b, st=None, c12=False):
     import symmray as sr
 
     out = []
@@ -345,17 +354,19 @@ def solve_failures(a, b, st=None, c12=False):
 
 
 def solve_systems(ctx, sym, ferm):
-    """(a descriptor, b descriptor): a square (i, i*)-indexed with every diagonal sector stored and dominant blocks, any charge that keeps blocks square;
-    b a 1-d array on a's row index, every charge"""
+    """(a descriptor, b descriptor, dense_ok).
+    (1) a square (i, i*)-indexed, charge zero, every diagonal sector stored, dominant blocks; b on a's row index, every charge;
+    (2) a with every direction pattern and every total charge over uniform block sizes (square off-diagonal blocks);
+        b = the single valid sector of each row charge that has an a-block.  dense_ok: the stored sectors pair every row
+        charge with a column charge one-to-one, so the dense embedding is an invertible square matrix (C12 comparison)."""
     menu = U.get_menu(sym, "m3")
     idx = 0
+    e = G.identity(sym)
     for rows in menu:
         for sizes in ((2, 2, 2), (1, 2, 3)):
             rt = {c: sizes[k % 3] for k, c in enumerate(sorted(rows))}
             for dual in (False, True):
                 row = ixd(rt, dual)
-                kw = dict(ferm=True, phases="probe0", label=5) if ferm else {}
-                e = G.identity(sym)
                 valid = G.valid_sectors(sym, [tuple(rt), tuple(rt)], (dual, not dual), e)
                 for dtype in ("float64", "complex128"):
                     idx += 1
@@ -365,4 +376,27 @@ def solve_systems(ctx, sym, ferm):
                         odd = G.parity(sym, bcharge) == 1
                         bkw = {"ferm": True, "phases": tuple(bvalid) if idx % 2 else (), "oddpos": (7 if odd else None)} if ferm else {}
                         b = arrd(sym, (row,), bcharge, tuple(bvalid), dtype=dtype, fill=("rand", 50 + idx), **bkw)
-                        yield a, b
+                        yield a, b, True
+    # (2) general directions and charges, uniform sizes
+    for rows in U.get_menu(sym, "core"):
+        if len(rows) < 2:
+            continue
+        table = {c: 2 for c in rows}
+        for d0, d1 in itertools.product((False, True), repeat=2):
+            indices = (ixd(table, d0), ixd(table, d1))
+            for charge in G.charge_closure(sym, [tuple(table), tuple(table)], (d0, d1)):
+                valid = G.valid_sectors(sym, [tuple(table), tuple(table)], (d0, d1), charge)
+                if not valid:
+                    continue
+                idx += 1
+                dtype = ("float64", "complex128")[idx % 2]
+                odd_a = G.parity(sym, charge) == 1
+                akw = {"ferm": True, "phases": tuple(valid[::2]) if idx % 3 else (), "oddpos": (4 if odd_a else None)} if ferm else {}
+                a = arrd(sym, indices, charge, tuple(valid), dtype=dtype, fill=("dominant", 300 + idx), **akw)
+                dense_ok = len({s_[0] for s_ in valid}) == len(valid) == len(table) and len({s_[1] for s_ in valid}) == len(valid)
+                for (c0, c1) in valid:
+                    bcharge = G.signed(sym, c0, d0)
+                    odd = G.parity(sym, bcharge) == 1
+                    bkw = {"ferm": True, "phases": ((c0,),) if idx % 2 else (), "oddpos": (7 if odd else None)} if ferm else {}
+                    b = arrd(sym, (indices[0],), bcharge, ((c0,),), dtype=dtype, fill=("rand", 70 + idx), **bkw)
+                    yield a, b, dense_ok
